@@ -24,7 +24,7 @@ md = "\n## 8. Seeded changes (independent sub-agents, one scratch worktree each,
  f"Round 1: {stats[1][1]} of {stats[1][0]} caught on first run, {stats[1][2]} after strengthening.  \n" \
  f"Round 2: {stats[2][1]} of {stats[2][0]} caught on first run, {stats[2][2]} after strengthening; the one left (C16-R2B) is in the YAML/JSON\n" \
  "decoding path, the part of C16 this technique cannot reach (§5).  \n" \
- f"Round 3: {stats[3][1]} of {stats[3][0]} caught on first run, {stats[3][2]} after strengthening (see the C16-R3B row).\n\n" \
+ f"Round 3: {stats[3][1]} of {stats[3][0]} caught on first run, {stats[3][2]} after strengthening.\n\n" \
  "### Round 1\n\n"+hdr+"\n".join(rows[1])+"\n\n### Round 2\n\n"+hdr+"\n".join(rows[2])+"\n\n### Round 3\n\n"+hdr+"\n".join(rows[3])+"\n"
 s=open('/verif/DESIGN.md').read()
 i=s.find('\n## 8. Seeded changes')
